@@ -15,6 +15,8 @@ func main() {
 		runSM(os.Args[2:])
 	case "table":
 		runTable(os.Args[2:])
+	case "hand":
+		runHand(os.Args[2:])
 	case "ogm":
 		runOGM(os.Args[2:])
 	case "ogmstress":
